@@ -321,10 +321,33 @@ def judge(res, info, dom, world, init, final, plan, agents, strict, joint):
     return res
 
 
+def add_delete_pair(ch, dom):
+    """Makes two different actions add and delete the same unary fact through parameters whose types may differ
+    (equal, or one a subtype of the other): the interference every converter must see, also across schemas."""
+    T = pddl.Types(dom["types"])
+    unary = [p for p in dom["predicates"] if len(p[1]) == 1]
+    if not unary or len(dom["actions"]) < 2:
+        return
+    p = ch.choice(unary)
+    a1, a2 = ch.sample(dom["actions"], 2)
+    def fitting(a):
+        return [v for v, ty in a["params"][1:] if T.is_sub(ty, p[1][0][1])]
+    f1, f2 = fitting(a1), fitting(a2)
+    if not f1 or not f2:
+        return
+    x1, x2 = ch.choice(f1), ch.choice(f2)
+    if [p[0], x1] not in a1["eff"][1:] and ["not", [p[0], x1]] not in a1["eff"][1:]:
+        a1["eff"].append([p[0], x1])
+    if ["not", [p[0], x2]] not in a2["eff"][1:] and [p[0], x2] not in a2["eff"][1:]:
+        a2["eff"].append(["not", [p[0], x2]])
+
+
 def gen(ch, tier):
     numeric = ch.flag(0.4)
     ft = c16.ma_feats(numeric=numeric, when=False, forall_eff=False, max_actions=4, max_params=3, empty_pre=True)
     dom, objects = G.gen_domain(ch, ft)
+    if ch.flag(0.5):
+        add_delete_pair(ch, dom)
     world = pddl.World(dom, objects)
     init = G.gen_state(ch, world, density=ch.choice([0.5, 0.8]))
     plan, _ = gen_walk(ch, dom, world, init, 12 if tier == "quick" else 30)
